@@ -1,9 +1,22 @@
 (* Property C09 (HTTP response framing), statements proved on the model of nbhttp/response.go.
-   Proved here: every successful Write reports exactly the number of bytes it was given; a refused Write
-   (declared Content-Length exceeded) puts nothing on the wire.
-   c09_decodes (the wire decodes to the handler's response) is checked on every run by the oracle
-   (net/http as the independent decoder) and the model correspondence; see C09Wire.v for the part proved. *)
-Require Import Response C09Proofs.
+
+   FULL STATEMENT (c09_decodes): for every well-formed handler program the bytes written to the connection form
+   exactly one HTTP/1.x response that an independent decoder maps back to the handler's status, headers, trailers and
+   the concatenation of the written body bytes.
+
+   PROVED HERE, for every request context, every sequence of header operations and every body program (Write of any
+   size incl. 0 and sizes around the 64 KiB threshold, Flush anywhere, trailer values set early or late):
+     * c09_chunked_wire: with chunked framing the wire is  head ++ one `hex(len) CRLF data CRLF` chunk per non-empty
+       Write, in order ++ "0" CRLF ++ trailer block ++ CRLF, and nothing stays buffered;
+     * c09_identity_wire: with identity framing (declared Content-Length or none) the wire is  head ++ the bytes of the
+       Writes in order, nothing lost, duplicated, reordered or left buffered - whatever the coalescing branches did;
+     * c09_write_reports_len, c09_refused_write_writes_nothing.
+   So the threshold/coalescing logic only decides WHEN bytes reach the connection, never which bytes or their order.
+   NOT PROVED (decided on every run by the net/http oracle and the model correspondence): that `head` is a well-formed
+   status line + header block with the right Content-Length / Transfer-Encoding, and the decoding of the chunk syntax.
+   c09_http10_flush_refuted is the recorded finding D9 as a witness on the model: the head's Content-Length is the
+   length of the body buffered at the Flush, not of the whole body. *)
+Require Import Response C09Proofs C09Wire.
 From Coq Require Import List NArith Bool Lia.
 Import ListNotations.
 Open Scope N_scope.
@@ -14,5 +27,45 @@ Proof. exact (op_write_n r d r' n). Qed.
 Theorem c09_refused_write_writes_nothing r d r' : op_write r d = (r', WErrContentLength) -> out r' = out r.
 Proof. exact (op_write_ecl r d r'). Qed.
 
+(* the state the body program starts from: a fresh response after any header operations *)
+Definition after_headers (q : req) (pre : list hop) : resp := fst (run_prog (new_resp q) pre []).
+
+Theorem c09_chunked_wire q pre body acc :
+  forallb is_header_op pre = true -> forallb is_body_op body = true ->
+  chunked (prep0 (after_headers q pre)) = true ->
+  let rf := op_finish (fst (run_prog (after_headers q pre) body acc)) in
+  exists H T, concat (out rf) = H ++ chunks body ++ CRLF0 ++ T ++ CRLF /\ buffer rf = None /\ bodybuf rf = None.
+Proof.
+  intros Hp Hb Hc.
+  exact (chunked_wire body (after_headers q pre) acc (header_ops_notstarted pre (new_resp q) [] (new_resp_notstarted q) Hp) Hc Hb).
+Qed.
+
+Theorem c09_identity_wire q pre body acc :
+  forallb is_header_op pre = true -> forallb is_wf_op body = true ->
+  chunked (prep0 (after_headers q pre)) = false ->
+  ok_run (prep0 (after_headers q pre)) body ->
+  let rf := op_finish (fst (run_prog (after_headers q pre) body acc)) in
+  exists H, concat (out rf) = H ++ body_data body /\ ob (buffer rf) = [] /\ ob (bodybuf rf) = [].
+Proof.
+  intros Hp Hb Hc Hok.
+  exact (identity_wire_from_fresh (ecl (prep0 (after_headers q pre))) (after_headers q pre) body acc
+           (header_ops_notstarted pre (new_resp q) [] (new_resp_notstarted q) Hp) Hc eq_refl Hb Hok).
+Qed.
+
+(* D9 on the model: "Content-Length: 1" in the head, two body bytes on the wire *)
+Example c09_http10_flush_refuted :
+  has_sub [67;111;110;116;101;110;116;45;76;101;110;103;116;104;58;32;49;13;10] d9_wire = true /\
+  has_sub [13;10;13;10;97;98] d9_wire = true.
+Proof. vm_compute. split; reflexivity. Qed.
+
+(* non-vacuity: an HTTP/1.1 program with a 70000-byte Write between two small ones is chunked and satisfies the hypotheses *)
+Example c09_example :
+  let q := {| proto := [72;84;84;80;47;49;46;49]; minor11 := true; rclose := false |} in
+  chunked (prep0 (after_headers q [HCustom [88] [49]])) = true /\
+  forallb is_body_op [HWrite [1;2;3]; HFlush; HWrite (repeat 7 70000); HWrite []; HWrite [4]] = true.
+Proof. split; reflexivity. Qed.
+
 Print Assumptions c09_write_reports_len.
 Print Assumptions c09_refused_write_writes_nothing.
+Print Assumptions c09_chunked_wire.
+Print Assumptions c09_identity_wire.
